@@ -139,6 +139,9 @@ def handmade(ctx, cfg, lab, peer):
                 l2.append(("validate", e.tcp(sp, dp, 101, ck1, PSH | ACK, b"hello"), twin))
                 for fl in (SYN | ACK, RST | ACK, SYN | ACK | CWR):
                     l2.append(("synack_data" if fl & SYN else "rst_data", e.tcp(sp, dp, 106, rng.getrandbits(32), fl, req), twin))
+                # the connection's teardown as the peer's stack sends it: payload-less RST / RST|ACK / SYN|ACK on the established flow
+                for fl in (RST | ACK, RST, RST | ACK | URG, SYN | ACK, RST | ACK):
+                    l2.append(("rst" if fl & RST else "synack", e.tcp(sp, dp, rng.choice([106, 107, rng.getrandbits(32)]), rng.choice([ck1, ck1 + 5, rng.getrandbits(32)]) & 0xFFFFFFFF, fl), twin))
     for kind, f, req in l2:
         if kind == "validate":
             ctx.send(f)
